@@ -7,15 +7,18 @@
 (*             direct colours need only come out as some palette colour                       *)
 (*   rt        1 = the string reported by --show-config, supplied again, rendered identically; *)
 (*             0 = differently; 2 = not tried                                                  *)
+(*   theme     TRUE iff the text sits in a file of a highlighted language under a syntax theme:  *)
+(*             then a `syntax` foreground is some colour of the theme, otherwise none            *)
 EXTENDS Style, TLC, Json, IOUtils
 Rec == ndJsonDeserialize(IOEnv.TRACE)
 VARIABLES l, failed
 vars == <<l, failed>>
 
-ColourOK(e, want, got) == IF e.exact \/ Len(want) # 3 THEN got = want ELSE Len(got) = 1
+ColourOK(e, want, got) == IF want = <<Syntax>> THEN (IF e.theme THEN got # <<>> ELSE got = <<>>)
+                          ELSE IF e.exact \/ Len(want) # 3 THEN got = want ELSE Len(got) = 1
 Why(e) ==
   LET m == Meaning(e.ws) IN
-  IF e.rejected # ~m.ok THEN (IF e.rejected THEN "valid-string-rejected" ELSE "third-colour-accepted")
+  IF e.rejected # ~m.ok THEN (IF e.rejected THEN "valid-string-rejected" ELSE "invalid-string-accepted")
   ELSE IF ~m.ok THEN ""
   ELSE IF ~ColourOK(e, m.fg, e.fg) THEN "foreground"
   ELSE IF ~ColourOK(e, m.bg, e.bg) THEN "background"
